@@ -48,16 +48,17 @@ func init() {
 const failAtom = "§nomatch§"
 
 type gen struct {
-	rng       *rand.Rand
-	nname     int
-	bound     map[string]bool // names bound on the current success path
-	pool      []string        // names defined inside decoys (candidates for reuse)
-	depth     int
-	canon     map[string]string // name -> canonical text of the subtree it is bound to
-	nilNames  []string          // names bound to an absent (nil) optional child
-	noPool    bool              // fresh() must not reuse decoy names
-	inDecoy   int               // nesting depth of decoys being generated
-	listNames []string          // names bound to a list tail
+	rng                 *rand.Rand
+	nname               int
+	bound               map[string]bool // names bound on the current success path
+	pool                []string        // names defined inside decoys (candidates for reuse)
+	depth               int
+	canon               map[string]string // name -> canonical text of the subtree it is bound to
+	nilNames            []string          // names bound to an absent (nil) optional child
+	noPool              bool              // fresh() must not reuse decoy names
+	forceCross, crossed bool              // see decoy
+	inDecoy             int               // nesting depth of decoys being generated
+	listNames           []string          // names bound to a list tail
 	// tuning
 	pAny, pBind, pOr, pNot float64
 	stats                  map[string]int
@@ -201,6 +202,13 @@ func (g *gen) decorate(n *pnode, lvl int) *pnode {
 			return &pnode{kind: "bind", name: name}
 		}
 	}
+	if g.forceCross && !g.crossed && n.kind == "list" && len(n.kids) != 1 && n.tail == nil {
+		if name := g.nodeBoundName(); name != "" {
+			g.crossed = true
+			g.stats["cross-kind-recall"]++
+			return &pnode{kind: "bind", name: name}
+		}
+	}
 	// inside a decoy (which fails anyway): recall a name across kinds — a name bound to a
 	// node at a list position, a name bound to a list tail at a node position. The recall
 	// must succeed only for a one-element list whose element equals the node.
@@ -317,15 +325,36 @@ func (g *gen) decoy(n *pnode, lvl int) *pnode {
 	g.inDecoy++
 	defer func() { g.inDecoy-- }()
 	var d *pnode
-	switch n.kind {
-	case "node":
+	cross := false
+	switch {
+	case n.kind == "node" && g.rng.Float64() < 0.3 && g.nodeBoundName() != "":
+		// a decoy WITHOUT a fail atom: it fails only because it recalls a name that is bound
+		// to a node at the position of a list that does not consist of exactly one element
+		// (the recall succeeds only for a one-element list equal to the node). Where it
+		// does succeed legitimately (other candidate nodes), its bindings stay: its names
+		// are therefore never taken from, nor given to, the pool of reusable names.
+		prev := g.noPool
+		g.noPool, g.forceCross, g.crossed = true, true, false
+		d = g.descendForce(n, lvl)
+		g.noPool, g.forceCross = prev, false
+		cross = g.crossed
+		if !cross {
+			if len(d.kids) == 0 {
+				d = &pnode{kind: "str", str: failAtom, fails: true}
+			} else {
+				d.kids[len(d.kids)-1] = &pnode{kind: "str", str: failAtom, fails: true}
+			}
+		} else {
+			g.stats["decoy-failing-only-by-cross-kind-recall"]++
+		}
+	case n.kind == "node":
 		d = g.descendForce(n, lvl)
 		if len(d.kids) == 0 {
 			d = &pnode{kind: "str", str: failAtom, fails: true}
 		} else {
 			d.kids[len(d.kids)-1] = &pnode{kind: "str", str: failAtom, fails: true}
 		}
-	case "list":
+	case n.kind == "list":
 		d = g.descendForce(n, lvl)
 		d.tail = nil
 		d.kids = append(d.kids, &pnode{kind: "str", str: failAtom, fails: true})
@@ -333,14 +362,34 @@ func (g *gen) decoy(n *pnode, lvl int) *pnode {
 		d = &pnode{kind: "str", str: failAtom, fails: true}
 	}
 	// names defined in the decoy are unbound again on the success path
+	var fresh []string
 	for k := range g.bound {
 		if !saved[k] {
-			g.pool = append(g.pool, k)
+			fresh = append(fresh, k)
 		}
+	}
+	sort.Strings(fresh) // (map order must not leak into what is generated)
+	if !cross {
+		g.pool = append(g.pool, fresh...)
 	}
 	g.bound = saved
 	g.stats["decoy"]++
 	return d
+}
+
+// nodeBoundName returns a name that is bound, on the current path, to a syntax node ("" if none).
+func (g *gen) nodeBoundName() string {
+	var c []string
+	for name := range g.canon {
+		if g.bound[name] {
+			c = append(c, name)
+		}
+	}
+	if len(c) == 0 {
+		return ""
+	}
+	sort.Strings(c)
+	return c[g.rng.IntN(len(c))]
 }
 
 // descendForce is descend with a higher binding rate (decoys should bind).
